@@ -250,6 +250,10 @@ func genAttrs(r *rng.R, d *doc, isShape bool, depth int) []attr {
 				cs = append(cs, c)
 			}
 		}
+		if r.P(1, 3) { // an earlier word that contains the next one as a substring
+			pr := rng.Pick(r, [][]string{{"c10", "c1"}, {"hotter", "hot"}, {"ab", "a"}, {"ab", "b"}, {"hotter", "c10", "hot"}})
+			cs = append([]string{}, pr...)
+		}
 		as = append(as, attr{kind: "class", names: cs})
 	}
 	if r.P(1, 5) {
